@@ -10,8 +10,8 @@ Line == Trace[ln]
 
 TraceInit == Init /\ ln = 1
 
-Reset == /\ cached' = {} /\ last' = [a |-> "init"] /\ obs' = 0 /\ n' = 0
-         /\ mneg' = FALSE /\ bad' = {}
+Reset == /\ cached' = {} /\ win' = NoWin /\ last' = [a |-> "init"] /\ obs' = 0 /\ n' = 0
+         /\ mneg' = FALSE /\ mwin' = NoWin /\ bad' = {}
 
 FromObs(o) == { i \in Peers : o.cache[i] = 1 }
 
@@ -22,11 +22,12 @@ Step ==
      ELSE LET a == Line.act
               o == Line.obs
               exp == IF Accept(a.cc, a.rc) THEN cached \cup {a.p} ELSE cached
+              expw == IF Accept(a.cc, a.rc) THEN [win EXCEPT ![a.p] = Push(win[a.p], RttId(a.rc, a.rv))] ELSE win
           IN /\ MonNext(a, o)
              /\ last' = a /\ obs' = o /\ n' = 0
-             /\ IF o.acc = (IF Accept(a.cc, a.rc) THEN 1 ELSE 0) /\ FromObs(o) = exp
-                THEN cached' = exp
-                ELSE PrintT(<<"DIVERGE", ln>>) /\ cached' = FromObs(o)
+             /\ IF o.acc = (IF Accept(a.cc, a.rc) THEN 1 ELSE 0) /\ FromObs(o) = exp /\ o.win = expw
+                THEN cached' = exp /\ win' = expw
+                ELSE PrintT(<<"DIVERGE", ln>>) /\ cached' = FromObs(o) /\ win' = o.win
              /\ \A c \in bad' \ bad : PrintT(<<"MONITOR", ln, {c}, {a.cc, a.rc}>>)
 
 TraceNext == Step
